@@ -2262,7 +2262,23 @@ def _int(ex, v=0, base=None):
         return toint(v) if not isinstance(v, int) else int(v)
     if isinstance(v, Obj) and '__int__' in v.methods:
         return v.methods['__int__'](ex, v)
+    if isinstance(v, SeqV) and v.kind == 'bytes' and base is None:
+        # A-BUILTIN: int(bytes) parses a decimal literal: ValueError for anything else (also for literals beyond
+        # the interpreter's digit limit); the parsed number is an uninterpreted function of the octets
+        if ex.choose(ex.fresh('int.literal.bad', BoolSort()), 'int-literal'):
+            raise _Raise(ExcV('ValueError'))
+        return z3.Function('parse_int', S, z3.IntSort())(v.z)
     raise Unsupported('int(%r)' % (v,))
+
+
+def _float(ex, v=0):
+    """A-BUILTIN: float(bytes|int) -> an opaque float object; ValueError for a malformed literal (never OverflowError:
+    out-of-range literals give inf)"""
+    if isinstance(v, SeqV) and v.kind == 'bytes':
+        if ex.choose(ex.fresh('float.literal.bad', BoolSort()), 'float-literal'):
+            raise _Raise(ExcV('ValueError'))
+        return Obj('float', {'of': v}, name='float(..)')
+    raise Unsupported('float(%r)' % (v,))
 
 
 def _bool(ex, v=False):
@@ -2390,7 +2406,7 @@ def _next(ex, g):
 
 BUILTINS = {
     'len': FnV(_len, 'len'), 'min': FnV(_minmax('min'), 'min'), 'max': FnV(_minmax('max'), 'max'),
-    'abs': FnV(_abs, 'abs'), 'int': FnV(_int, 'int'), 'bool': FnV(_bool, 'bool'), 'ord': FnV(_ord, 'ord'),
+    'abs': FnV(_abs, 'abs'), 'int': FnV(_int, 'int'), 'float': FnV(_float, 'float'), 'bool': FnV(_bool, 'bool'), 'ord': FnV(_ord, 'ord'),
     'isinstance': FnV(_isinstance, 'isinstance'), 'tuple': FnV(_tuple, 'tuple'), 'list': FnV(_list, 'list'),
     'bytes': FnV(_bytes, 'bytes'), 'hasattr': FnV(_hasattr, 'hasattr'), 'enumerate': FnV(_enumerate, 'enumerate'),
     'range': FnV(_range, 'range'), 'True': True, 'False': False, 'None': None,
@@ -2628,11 +2644,38 @@ def discharge(vc, rlimit=None, timeout_ms=None):
     import tempfile
     t0 = time.time()
     long_ms = timeout_ms or TIMEOUT_MS * 3
+    if vc.kind == 'lemma' and not vc.pc:
+        # a lemma instance has no path condition: the same instance on another path is the same query
+        key = vc.goal.sexpr()
+        if key in _LEMMA_CACHE:
+            v, b = _LEMMA_CACHE[key]
+            return v, 0.0, None, b
+        r = _discharge(vc, long_ms, t0)
+        if r[0] == 'proved':
+            _LEMMA_CACHE[key] = (r[0], r[3] + '(cached)')
+        return r
+    return _discharge(vc, long_ms, t0)
+
+
+_LEMMA_CACHE = {}
+
+
+def _discharge(vc, long_ms, t0):
+    import subprocess
+    import tempfile
     s, r = _z3py(vc, 2000 if vc.kind == 'lemma' else 4000)
     if r == z3.unsat:
         return 'proved', time.time() - t0, None, 'z3'
     if r == z3.sat:
         return 'refuted', time.time() - t0, s.model(), 'z3'
+    # the sequence/recfun engine of z3 is erratic on identical input (0.1 s or > 10 s): re-seeded short retries are
+    # cheaper than the external solvers
+    for seed in (7, 13, 29):
+        s2, r = _z3py(vc, 1500, seed=seed)
+        if r == z3.unsat:
+            return 'proved', time.time() - t0, None, 'z3(reseeded)'
+        if r == z3.sat:
+            return 'refuted', time.time() - t0, s2.model(), 'z3(reseeded)'
     text = '(set-logic ALL)\n' + s.to_smt2()
     fd, path = tempfile.mkstemp(suffix='.smt2', prefix='pyvc-')
     try:
